@@ -24,14 +24,15 @@ package atree
 
 //@ pred hdrOf(x ArraySlab) = ite(is(x, *ArrayDataSlab), as(x, *ArrayDataSlab).header, as(x, *ArrayMetaDataSlab).header)
 
-//@ # local well-formedness of an index slab: cumulative counts are the running sum of the child counts, every child is non-empty
-//@ # (so the cumulative counts are strictly increasing), the slab's own count and size summarise its header list.
-//@ pred wfMeta(a *ArrayMetaDataSlab) = a != nil && len(a.childrenHeaders) == len(a.childrenCountSum) && len(a.childrenHeaders) >= 1 &&
+//@ # local well-formedness of an index slab: cumulative counts are the running sum of the child counts, the slab's own count and
+//@ # size summarise its header list (wfMeta0); in addition every child is non-empty, so cumulative counts strictly increase (wfMeta).
+//@ pred wfMeta0(a *ArrayMetaDataSlab) = a != nil && len(a.childrenHeaders) == len(a.childrenCountSum) && len(a.childrenHeaders) >= 1 &&
 //@      a.childrenCountSum[0] == a.childrenHeaders[0].count &&
 //@      (forall k :: 1 <= k && k < len(a.childrenHeaders) ==> a.childrenCountSum[k] == a.childrenCountSum[k - 1] + a.childrenHeaders[k].count) &&
-//@      (forall k :: 0 <= k && k < len(a.childrenHeaders) ==> a.childrenHeaders[k].count >= 1) &&
 //@      a.header.count == a.childrenCountSum[len(a.childrenHeaders) - 1] &&
 //@      a.header.size == 12 + 14 * len(a.childrenHeaders)
+
+//@ pred wfMeta(a *ArrayMetaDataSlab) = wfMeta0(a) && (forall k :: 0 <= k && k < len(a.childrenHeaders) ==> a.childrenHeaders[k].count >= 1)
 
 //@ lemma monoCS(a *ArrayMetaDataSlab, i int, j int) induction j  serves C01 C05
 //@   requires wfMeta(a) && 0 <= i && i <= j && j < len(a.childrenCountSum)
@@ -49,3 +50,61 @@ package atree
 //@   loop 1: invariant 0 <= i && i <= len(a.childrenCountSum) && childHeaderIndex == 0 && (forall j :: 0 <= j && j < i ==> a.childrenCountSum[j] <= index)
 //@   loop 2: invariant 0 <= low && low <= high && high <= count && (forall j :: 0 <= j && j < low ==> a.childrenCountSum[j] <= index) &&
 //@        (forall j :: high <= j && j < count ==> a.childrenCountSum[j] > index)
+
+//@ # ---- parent bookkeeping (C01, C05, C09): what an index slab records about its children
+
+//@ # every header of a equals the header of the slab stored under its id, which is an array slab other than a
+//@ pred agree(a *ArrayMetaDataSlab) = forall k :: 0 <= k && k < len(a.childrenHeaders) ==>
+//@      sto[a.childrenHeaders[k].slabID] != nil && sto[a.childrenHeaders[k].slabID] != a &&
+//@      (is(sto[a.childrenHeaders[k].slabID], *ArrayDataSlab) || is(sto[a.childrenHeaders[k].slabID], *ArrayMetaDataSlab)) &&
+//@      hdrOf(sto[a.childrenHeaders[k].slabID]) == a.childrenHeaders[k]
+
+//@ pred agreeExcept(a *ArrayMetaDataSlab, x int) = forall k :: 0 <= k && k < len(a.childrenHeaders) && k != x ==>
+//@      sto[a.childrenHeaders[k].slabID] != nil && sto[a.childrenHeaders[k].slabID] != a &&
+//@      (is(sto[a.childrenHeaders[k].slabID], *ArrayDataSlab) || is(sto[a.childrenHeaders[k].slabID], *ArrayMetaDataSlab)) &&
+//@      hdrOf(sto[a.childrenHeaders[k].slabID]) == a.childrenHeaders[k]
+
+//@ pred distinctChildren(a *ArrayMetaDataSlab) = forall i, j :: 0 <= i && i < j && j < len(a.childrenHeaders) ==>
+//@      a.childrenHeaders[i].slabID != a.childrenHeaders[j].slabID
+
+//@ func (a *ArrayMetaDataSlab) updateChildrenHeadersAfterMerge(merged, li, ri)  serves C01 C05
+//@   requires a != nil && len(a.childrenHeaders) == len(a.childrenCountSum) && 0 <= li && ri == li + 1 && ri < len(a.childrenHeaders)
+//@   ensures len(a.childrenHeaders) == len(old(a.childrenHeaders)) - 1 && len(a.childrenCountSum) == len(a.childrenHeaders)
+//@   ensures forall k :: 0 <= k && k < li ==> a.childrenHeaders[k] == old(a.childrenHeaders)[k] && a.childrenCountSum[k] == old(a.childrenCountSum)[k]
+//@   ensures a.childrenHeaders[li] == merged && a.childrenCountSum[li] == old(a.childrenCountSum)[ri]
+//@   ensures forall k :: li < k && k < len(a.childrenHeaders) ==> a.childrenHeaders[k] == old(a.childrenHeaders)[k + 1] && a.childrenCountSum[k] == old(a.childrenCountSum)[k + 1]
+//@   modifies a.childrenHeaders, a.childrenCountSum, ghost.touched
+
+//@ # ---- structural operations of an index slab on itself / a sibling (same shapes as the data slab ones)
+
+//@ pred inBandMeta(a *ArrayMetaDataSlab) = minThreshold <= a.header.size && a.header.size <= maxThreshold
+
+//@ # n headers of 14 bytes cover `size`, and lending them leaves the lender strictly above the minimum (the test in CanLendToLeft/Right)
+//@ pred canLendMeta(a *ArrayMetaDataSlab, size int) = a.header.size >= 14 * ((size + 13) / 14) && a.header.size - 14 * ((size + 13) / 14) > minThreshold
+
+//@ func (a *ArrayMetaDataSlab) CanLendToLeft(size) (r)  serves C05
+//@   requires size <= minThreshold
+//@   ensures r == canLendMeta(a, size)
+//@   pure
+
+//@ func (a *ArrayMetaDataSlab) CanLendToRight(size) (r)  serves C05
+//@   requires size <= minThreshold
+//@   ensures r == canLendMeta(a, size)
+//@   pure
+
+//@ func (a *ArrayMetaDataSlab) Merge(slab) (err)  serves C01 C05 C06
+//@   requires is(slab, *ArrayMetaDataSlab) && a != slab && wfMeta(a) && wfMeta(as(slab, *ArrayMetaDataSlab))
+//@   requires a.header.size + as(slab, *ArrayMetaDataSlab).header.size <= 4294967295 && a.header.count + as(slab, *ArrayMetaDataSlab).header.count <= 4294967295
+//@   uses monoCS(as(slab, *ArrayMetaDataSlab))
+//@   ensures err == nil && wfMeta(a)
+//@   ensures[C01] len(a.childrenHeaders) == len(old(a.childrenHeaders)) + len(old(as(slab, *ArrayMetaDataSlab).childrenHeaders)) &&
+//@        (forall k :: 0 <= k && k < len(old(a.childrenHeaders)) ==> a.childrenHeaders[k] == old(a.childrenHeaders)[k]) &&
+//@        (forall k :: 0 <= k && k < len(old(as(slab, *ArrayMetaDataSlab).childrenHeaders)) ==> a.childrenHeaders[len(old(a.childrenHeaders)) + k] == old(as(slab, *ArrayMetaDataSlab).childrenHeaders)[k])
+//@   ensures[C06] a.header.size == old(a.header.size) + old(as(slab, *ArrayMetaDataSlab).header.size) - 12 &&
+//@        a.header.count == old(a.header.count) + old(as(slab, *ArrayMetaDataSlab).header.count) && a.header.slabID == old(a.header.slabID)
+//@   modifies a.childrenHeaders, a.childrenCountSum, a.header, ghost.touched
+//@   loop 1: invariant leftSlabChildrenCount <= i && i <= len(a.childrenHeaders) && len(a.childrenCountSum) == i &&
+//@        baseCountSum == a.childrenCountSum[i - 1] &&
+//@        a.childrenCountSum[0] == a.childrenHeaders[0].count &&
+//@        (forall k :: 1 <= k && k < i ==> a.childrenCountSum[k] == a.childrenCountSum[k - 1] + a.childrenHeaders[k].count) &&
+//@        baseCountSum == old(a.header.count) + ite(i > leftSlabChildrenCount, old(as(slab, *ArrayMetaDataSlab).childrenCountSum)[i - leftSlabChildrenCount - 1], 0)
